@@ -86,7 +86,7 @@ class Engine:
                 opts.append(rng.choice(["a=1", "flag=true", "x=False", "bad", "a=b=c", "="]) if rng.random() < 0.5 else "ok=1")
         outdir = rng.choice(["out", "out", "out", "missing_out", "afile"]) if config == "control" else "out"
         return {"paths": paths, "models": models, "target": target, "opts": opts, "outdir": outdir,
-                "faults": None, "pair_seed": rng.randrange(1 << 30)}
+                "verbose": rng.choice([0, 0, 0, 1, 2]), "faults": None, "pair_seed": rng.randrange(1 << 30)}
 
     def shrink_candidates(self, plan):
         for key in ("models", "paths", "opts"):
@@ -106,6 +106,10 @@ class Engine:
         if plan["outdir"] != "out":
             p = copy.deepcopy(plan)
             p["outdir"] = "out"
+            yield p
+        if plan.get("verbose"):
+            p = copy.deepcopy(plan)
+            p["verbose"] = 0
             yield p
 
     # -- sandbox / invocation ----------------------------------------------------------------------
@@ -131,6 +135,8 @@ class Engine:
         for o in plan["opts"]:
             a += ["-O", o]
         a += ["-o", os.path.join(sb, plan["outdir"])]
+        if plan.get("verbose"):
+            a += ["-" + "v" * plan["verbose"]]
         return a
 
     def invoke(self, plan, sb, faults):
@@ -311,7 +317,7 @@ class Engine:
     def show(plan):
         return " ".join(plan["paths"] + sum([["-m", m] for m in plan["models"]], []) +
                         (["-t", plan["target"]] if plan["target"] else []) + sum([["-O", o] for o in plan["opts"]], []) +
-                        ["-o", plan["outdir"]])
+                        ["-o", plan["outdir"]] + (["-" + "v" * plan["verbose"]] if plan.get("verbose") else []))
 
     # -- execution ---------------------------------------------------------------------------------------------
     def execute(self, plan, replay=False):
